@@ -43,6 +43,11 @@ def okAfterTearToks : List String → Bool
   | [] => true
   | e :: es => (if evKind e == "tear" then es.all (fun x => evKind x == "tear" || evKind x == "cb") else true) && okAfterTearToks es
 
+/-- output callbacks come after every plug tearDown: no tearDown event after a callback event -/
+def okNoTearAfterCb : List String → Bool
+  | [] => true
+  | e :: es => (if evKind e == "cb" then es.all (fun x => evKind x != "tear") else true) && okNoTearAfterCb es
+
 /-- the plug lifecycle property on the REAL observation -/
 def lifecycleFailures (r : Run) (real : Toks) : List String :=
   let evs := real.filter (·.startsWith "e")
@@ -90,6 +95,7 @@ def handleAbort (ts : Toks) : String :=
         (if cnt "eP+" c ≤ 1 then [] else ["plug-constructed-more-than-once"]) ++
         (if cnt "eP-" c == cnt "eP+" c then [] else ["teardown-not-exactly-once-per-instance"]))) ++
       (if okAfterTearToks evs then [] else ["teardown-before-last-phase-ended-or-after-callbacks"]) ++
+      (if okNoTearAfterCb evs then [] else ["output-callback-before-plug-teardown"]) ++
       (if real.contains "O:DEADLOCK" then ["deadlock"] else []) ++
       (if real.contains "X:ret:1" == real.contains "O:PASS" then [] else ["return-value-not-iff-pass"])
     reply true fails.eraseDups.isEmpty (if fails.isEmpty then "ok" else ",".intercalate fails.eraseDups)
